@@ -228,6 +228,19 @@ def faceMargin [Zero K] [One K] [Sub K] [Neg K] [LT K] [DecidableLT K] (s : V3 K
   minK (minK (minK (absK s.x) (absK (1 - s.x))) (minK (absK s.y) (absK (1 - s.y))))
     (minK (absK s.z) (absK (1 - s.z)))
 
+/-! ### the same cell in another unit of length (every vector and the origin times `s`) -/
+
+section units
+variable [Mul K]
+def scaleV (s : K) (v : V3 K) : V3 K := ⟨s * v.x, s * v.y, s * v.z⟩
+def scaleM (s : K) (m : M3 K) : M3 K := ⟨scaleV s m.r0, scaleV s m.r1, scaleV s m.r2⟩
+def scaleBox (s : K) (b : Box K) : Box K := ⟨scaleM s b.vects, scaleV s b.origin⟩
+/-- the cell with Cartesian axes reversed (`sx sy sz = ±1`): columns of `vects` times the signs. -/
+def flipAxes (sx sy sz : K) (b : Box K) : Box K :=
+  ⟨⟨⟨sx * b.vects.r0.x, sy * b.vects.r0.y, sz * b.vects.r0.z⟩, ⟨sx * b.vects.r1.x, sy * b.vects.r1.y, sz * b.vects.r1.z⟩,
+    ⟨sx * b.vects.r2.x, sy * b.vects.r2.y, sz * b.vects.r2.z⟩⟩, ⟨sx * b.origin.x, sy * b.origin.y, sz * b.origin.z⟩⟩
+end units
+
 /-! ### the Box *object*: current cell + lazily computed reciprocal vectors
 
 `atomman.Box` keeps `__reciprocal_vects` (`None` until `reciprocal_vects` is first read; filled with
